@@ -92,6 +92,11 @@ func c15funcs(r *report.Report, l *report.Local, in c15in) {
 	// every argument is a window into a larger buffer of the caller (a subscriber record SQN||AMF, a message): what lies
 	// behind the window is not the library's to write
 	win := func(b []byte) (w, whole, keep []byte) {
+		if c15callSeq%2 == 0 {
+			// every other call: buffers of exactly the argument's length (reading or writing behind them panics)
+			whole = append(make([]byte, 0, len(b)), b...)
+			return whole[:len(b):len(b)], whole, append([]byte{}, whole...)
+		}
 		whole = append(append([]byte{}, b...), 0x5a, 0x5a, 0x5a, 0x5a, 0x5a, 0x5a, 0x5a, 0x5a)
 		return whole[:len(b):len(whole)], whole, append([]byte{}, whole...)
 	}
